@@ -70,6 +70,8 @@ def run(fx, rep, tier):
             o["rule"] = {"C02-R3": "C13-R2", "C02-R2": "C13-R2", "C02-R5": "C13-R2", "C03-R3": "C13-R3", "C03-R2": "C13-R3",
                          "C04-R2": "C13-R3", "C04-R3": "C13-R3", "C04-R5": "C13-R3"}.get(o["rule"], o["rule"])
             rep.obls.append(o)
+    # a*b = b*a also where a conversion is not multiplicative (°C, °F): each operand's units are re-derived on its own value
+    c04.r9_operand_faithful(facts, rep, "C13-R7")
     sub = type(rep)(rep.prop, rep.tier)
     c05.powers_are_base_only(facts, sub, "C13-R4")
     for o in sub.obls:
